@@ -3,6 +3,8 @@ package lab
 import (
 	_ "verif/lab/clntlab"
 	_ "verif/lab/codec"
+	_ "verif/lab/loglab"
+	_ "verif/lab/racelab"
 	_ "verif/lab/srvlab"
 	_ "verif/lab/ufslab"
 )
